@@ -37,7 +37,9 @@ META = {
                   "sum to (sum of defects)*2/pi, which is 4 chi under the Gauss-Bonnet premise stated in the theorem (C07's result; "
                   "tested per run on the defects the code uses, not linked by proof); re-flagging on a mesh object that carried earlier "
                   "fields stores exactly the indices of the field asked for (both element kinds; the `.clear()` of both "
-                  "flag_singularities is generated); gauge covariance of operator + partition + solve: whatever any solver "
+                  "flag_singularities is generated); the stage plumbing of FrameField.run() (generated: initialize iff not "
+                  "initialised, optimize iff not smoothed, independently) guarantees that any order of the public calls "
+                  "initialize / optimize / run / __call__ containing a run() has optimised; gauge covariance of operator + partition + solve: whatever any solver "
                   "answers in rotated bases, rotated back it is a harmonic extension of the original constraints, and "
                   "normalisation commutes with the gauge. PARTIAL: index quantum (e^{i order angle} = 1 under "
                   "the named hypotheses: root property of the picked branches, holonomy; the closed fan is discharged from the "
@@ -49,7 +51,9 @@ META = {
                   "edges. The model is tied to the code by the translator and by kernel-evaluated correspondence batches "
                   "(bases, transports as (cos,sin), operator entries, constraint vector, partition, the system handed to "
                   "spsolve and the residual of its answer, final field, indices incl. the previous content of the attribute) on "
-                  "generated surfaces and on SEQUENCES of field computations + flaggings on one mesh object.",
+                  "generated surfaces, on SEQUENCES of field computations + flaggings on one mesh object, and with every field "
+                  "driven through one of nine legal orders of its public stage methods (the number of initialize / optimize "
+                  "executions is compared with the model in a kernel batch).",
     "level_note": "Trusted: Coq kernel + vm_compute; the translator vf/translate/c18.py; the correspondence harness (mesh "
                   "generators, driver canonicalisation of scipy matrices, wrapping of scipy.sparse.linalg.spsolve to record "
                   "the first system and answer, tolerance 1e-9 relative to 1+|re|+|im| on binary64, 1e-7 for the solver "
